@@ -95,7 +95,7 @@ class ProcessSuite(Suite):
         return ops
 
     def generate(self, rng, tier):
-        n, max_ops = (3000, 40) if tier == 'quick' else (60000, 200)
+        n, max_ops = (3000, 40) if tier == 'quick' else (30000, 150)
         out = []
         for k in range(n):
             out.append(self.gen_history(rng, max_ops, hostile=(k % 5 == 4)))
